@@ -289,10 +289,17 @@ def meta_markers(context_only: bool = False) -> sched.MarkerSet:
     for name, member in vars(XmlContext).items():
         fn = member.fget if isinstance(member, property) else member
         # build_xsi_cache walks every class of the interpreter: it has its own markers in the main phase
-        if name in ("__init__", "get_builder", "get_subclasses", "is_binding_model", "build_xsi_cache") or not inspect.isfunction(fn):
+        if name in ("__init__", "get_subclasses", "is_binding_model", "build_xsi_cache") or not inspect.isfunction(fn):
             continue
         # the methods that hand out entries of the shared type index: EVERY line (and the lambdas / comprehensions in
         # them) is a yield point - what they do to a list they got from the index is done to shared state
         every_line = name in ("find_subclass", "find_type", "find_types", "fetch", "is_derived")
         ms.append(sched.Marker(fn, [(r"\S" if every_line else r"self\b", "c_access")]))
+    # the metadata builder the context hands out for one build: if it were ever shared between calls, what one call
+    # leaves on it would be seen by the next
+    from xsdata.formats.dataclass.models.builders import XmlMetaBuilder
+
+    for name, member in vars(XmlMetaBuilder).items():
+        if inspect.isfunction(member) and name != "__init__":
+            ms.append(sched.Marker(member, [(r"self\.globalns", "c_access")]))      # where the per-call argument is READ
     return sched.MarkerSet(ms)
